@@ -65,7 +65,8 @@ def run_property(P, tier, seed, replay=None):
         cases = P.generate(rng, tier)
     impl, model, spec = ({}, {}, {})
     if harness_error is None:
-        impl, model, spec = kv.run_cases(cases, bins, drv, impl_shards=getattr(P, "IMPL_SHARDS", kv.NPROC))
+        impl, model, spec = kv.run_cases(cases, bins, drv, impl_shards=getattr(P, "IMPL_SHARDS", kv.NPROC),
+                                         per_shard=getattr(P, "PER_SHARD", 50))
 
     compare = getattr(P, "compare", lambda c, i, m: i == m)
     spec_ok = getattr(P, "spec_ok", lambda c, i, s: i == s)
